@@ -76,6 +76,12 @@ fn main() {
                         for b in g::BAD_400 { classes.push(("e400", b.to_vec())); }
                         for b in g::BAD_417 { classes.push(("e417", b.to_vec())); }
                         for b in g::BAD_505 { classes.push(("e505", b.to_vec())); }
+                        {
+                            // a rejected request with a body larger than every buffer: it must be skipped
+                            let mut big = b"PUT /v3 HTTP/3.0\r\nContent-Length: 5000\r\n\r\n".to_vec();
+                            big.extend(std::iter::repeat(b'x').take(5000));
+                            classes.push(("e505", big));
+                        }
                         for b in g::BAD_SILENT { classes.push(("silent", b.to_vec())); }
                         let reps = std::cmp::max(1, n / 100);
                         for _ in 0..reps {
